@@ -525,13 +525,18 @@ func (fc *funcCFG) establishedAt(target ast.Node, establishes func(cond ast.Expr
 // everyIterationPasses: every path in the CFG from the head of the loop round to the head again passes a node that
 // contains an event (the loop's own exit block is never entered; closures are not looked into).
 func (fc *funcCFG) everyIterationPasses(fs *ast.ForStmt, event func(n ast.Node) bool) bool {
+	return fc.everyRoundPasses(fs, event)
+}
+
+// everyRoundPasses is everyIterationPasses for a for or a range statement.
+func (fc *funcCFG) everyRoundPasses(fs ast.Stmt, event func(n ast.Node) bool) bool {
 	var head, body *cfg.Block
 	for _, b := range fc.g.Blocks {
-		if b.Stmt == ast.Stmt(fs) {
+		if b.Stmt == fs {
 			switch b.Kind {
-			case cfg.KindForLoop:
+			case cfg.KindForLoop, cfg.KindRangeLoop:
 				head = b
-			case cfg.KindForBody:
+			case cfg.KindForBody, cfg.KindRangeBody:
 				body = b
 			}
 		}
@@ -569,7 +574,7 @@ func (fc *funcCFG) everyIterationPasses(fs *ast.ForStmt, event func(n ast.Node) 
 	seen := map[*cfg.Block]bool{}
 	var work []*cfg.Block
 	push := func(b *cfg.Block) {
-		if b.Kind == cfg.KindForDone && b.Stmt == ast.Stmt(fs) {
+		if (b.Kind == cfg.KindForDone || b.Kind == cfg.KindRangeDone) && b.Stmt == fs {
 			return
 		}
 		if !seen[b] {
